@@ -18,12 +18,16 @@ import (
 
 type c08sParams struct {
 	FT, ST, MR int
-	Start      string // "closed", "open-expired" (tripped, timeout elapsed) or "closed-stale-failure"
+	Start      string // "closed", "open-expired" (tripped, timeout elapsed), "closed-stale-failure" or "reached"
+	Prefix     []int  // Start "reached": events of c08Events (interval 2s, timeout 3s) leading to the start state
 	Modes      []string
 }
 
 func c08sScenario(p c08sParams, bound int) vh.SScenario {
 	name := fmt.Sprintf("breaker-conc-%s-ft%d-st%d-mr%d-%v", p.Start, p.FT, p.ST, p.MR, p.Modes)
+	if p.Start == "reached" {
+		name = fmt.Sprintf("breaker-conc-reached%v-ft%d-st%d-mr%d-%v", p.Prefix, p.FT, p.ST, p.MR, p.Modes)
+	}
 	return vh.SScenario{Name: name, KeyPrefix: "C08/conc", Bound: bound, Params: p, Body: func(x *vh.Exec) {
 		s := x.S
 		k := newKit(s, kitOpts{N: 1, Breaker: &config.CircuitBreakerConfig{Enabled: true, MaxRequests: p.MR, IntervalSeconds: 2,
@@ -48,6 +52,12 @@ func c08sScenario(p c08sParams, bound int) vh.SScenario {
 				vh.ToolError("setup: breaker not closed after one failed request with failure_threshold %d", p.FT)
 			}
 			s.AdvanceQuiet(2100 * time.Millisecond)
+		}
+		if p.Start == "reached" {
+			in := &c08Inst{s: s, k: k, p: c08Params{p.FT, p.ST, p.MR, 2, 3}}
+			for _, e := range p.Prefix {
+				in.Step(e)
+			}
 		}
 		results := make([]reqResult, len(p.Modes))
 		done := make([]bool, len(p.Modes))
@@ -92,6 +102,11 @@ func c08sScenario(p c08sParams, bound int) vh.SScenario {
 		for _, m := range p.Modes {
 			if m != "ok" {
 				allOK = false
+			}
+		}
+		for _, r := range results {
+			if r.Status == 503 {
+				allOK = false // arrived while the breaker was (still) open: it stays open
 			}
 		}
 		if allOK && k.lb.circuitBreaker.State() == circuitbreaker.StateOpen {
@@ -162,6 +177,49 @@ func TestVerifC08S(t *testing.T) {
 	for i, sc := range c08sScenarios() {
 		if vh.MyShard(i) {
 			vh.RunS(r, "TestVerifC08S", sc)
+		}
+	}
+}
+
+// TestVerifC08Reach: the same overlapping requests, started from every control state the
+// sequential search (c08Spec) reaches within a few events instead of from hand-picked ones.
+func TestVerifC08Reach(t *testing.T) {
+	r := vres.Open("C08", racePart("Reach"))
+	defer func() {
+		if err := r.Close(); err != nil {
+			t.Fatal(err)
+		}
+	}()
+	if vres.ReplayPath() != "" {
+		var rp vh.SReplay
+		var p c08sParams
+		rp.Params = &p
+		if err := vres.LoadReplay(&rp); err != nil {
+			t.Fatal(err)
+		}
+		vh.ReplayS(c08sScenario(p, 0), rp.Choices)
+		return
+	}
+	cfgs := [][3]int{{1, 1, 1}, {2, 2, 1}}
+	depth, bound := 3, 2
+	pairs := [][]string{{"ok", "ok"}, {"ok", "500"}, {"500", "abort"}}
+	if vrt.RaceBuild {
+		depth = 2
+	}
+	if vres.Thorough() {
+		cfgs = append(cfgs, [3]int{2, 1, 2}, [3]int{3, 2, 2})
+		depth = 5
+		pairs = append(pairs, []string{"ok", "abort"}, []string{"500", "500"}, []string{"ok", "ok", "500"})
+	}
+	i := 0
+	for _, c := range cfgs {
+		for _, pre := range vh.ReachableH(c08Spec(c08Params{c[0], c[1], c[2], 2, 3}, depth)) {
+			for _, m := range pairs {
+				if vh.MyShard(i) {
+					vh.RunS(r, "TestVerifC08Reach", c08sScenario(c08sParams{FT: c[0], ST: c[1], MR: c[2], Start: "reached", Prefix: pre, Modes: m}, bound))
+				}
+				i++
+			}
 		}
 	}
 }
